@@ -45,6 +45,10 @@ func init() {
 
 func c16Harness(cfg *Cfg) func(x *mc.Exec) {
 	kinds := allWriterKinds()
+	// gzip Writers whose header fields are set (again after every Reset): valid ones, and ones the format cannot hold,
+	// which compress/gzip reports from every call that would have to write the header
+	kinds = append(kinds, WK{Kind: "gzip", Level: 1, Hdr: true}, WK{Kind: "gzip", Level: 1, BadHdr: 1}, WK{Kind: "gzip", Level: -2, BadHdr: 2},
+		WK{Kind: "gzip", Level: 6, BadHdr: 3}, WK{Kind: "gzip", Level: 6, BadHdr: 1})
 	depth := 4
 	if cfg.Thorough {
 		depth = 6
@@ -143,6 +147,7 @@ func c16Harness(cfg *Cfg) func(x *mc.Exec) {
 				case 5:
 					fsink = &env.Sink{}
 					fw.Reset(fsink)
+					k.ApplyHdr(fw)
 				}
 			})
 			switch op {
@@ -155,6 +160,7 @@ func c16Harness(cfg *Cfg) func(x *mc.Exec) {
 			case 5:
 				ssink = &env.Sink{}
 				sw.Reset(ssink)
+				k.ApplyHdr(sw)
 			}
 			x.Logf("%s: fast (n=%d err=%v) std (n=%d err=%v) emitted %d->%d", opNames[op], fn, ferr, sn, serr, before, len(fsink.Buf))
 			state := "open"
